@@ -1,7 +1,7 @@
 """Rules shared by several properties."""
 import ast
 
-from ..astutil import call_name, norm
+from ..astutil import call_name, norm, walk_no_nested
 from ..exprnorm import EQ, GT, LT, comparison, conjuncts, linear, sub
 
 ALLOC_MODULES = ("greedy_allocation", "hillclimb_allocation", "tensor_allocation", "live_range", "scheduler")
@@ -443,7 +443,7 @@ def pair_unpack_lint(repo, rep, rule, modules):
     return n
 
 
-def operand_stem_lint(repo, rep, rule, modules):
+def operand_stem_lint(repo, rep, rule, modules, sides=None, what=None):
     """In the command-stream level modules a parameter named after the input (ifm / ifm2) or the output (ofm) feature map
     receives a value named after the same side: `f(arch, cur_ofm_rect, cur_ifm_rect, ...)` for `def f(arch, ifm, ofm, ...)`
     swaps the two rectangles. Callees are resolved by unique simple name; only plain names / attribute chains that name
@@ -452,12 +452,7 @@ def operand_stem_lint(repo, rep, rule, modules):
 
     def side(name):
         t = set(_re.split(r"[_.\[\]() ]+", name.lower()))
-        s = set()
-        if "ifm" in t or "ifm2" in t:
-            s.add("in")
-        if "ofm" in t:
-            s.add("out")
-        return s
+        return {k for k, stems in (sides or {"in": {"ifm", "ifm2"}, "out": {"ofm"}}).items() if t & stems}
 
     idx = {}
     for m in repo.core_modules():
@@ -490,6 +485,62 @@ def operand_stem_lint(repo, rep, rule, modules):
                     if len(as_) != 1:
                         continue
                     n += 1
-                    rep.check(ps == as_, rule, f"ethosu/vela/{mname}.py:{q}", f"{str(norm(c))[:70]}: parameter `{p}` of {tq} receives the {'input' if ps == {'in'} else 'output'} side",
-                              f"receives `{str(norm(a))}`: input and output feature map are exchanged at this call")
+                    rep.check(ps == as_, rule, f"ethosu/vela/{mname}.py:{q}", f"{str(norm(c))[:70]}: parameter `{p}` of {tq} receives the {next(iter(ps)) if sides else ('input' if ps == {'in'} else 'output')} side",
+                              f"receives `{str(norm(a))}`: {what or 'input and output feature map are exchanged at this call'}")
+    return n
+
+
+def stale_extent_lint(repo, rep, rule, modules, report=True):
+    """A local that caches the extent of an array (`n = v.size`, `len(v)`, `v.shape...`, `v.nbytes`) is used together
+    with that array only while the array is still the one it was measured on: `end = start + values.size; values =
+    reinterpret(values); mem[start:end] = values` stores a buffer whose length no longer matches the slice (ValueError
+    traceback for every multi-byte input). Decided by reaching definitions on the function's CFG; sites are slice stores
+    `T[..L..] = V` and calls / expressions naming both L and V in one statement. Returns the number of (extent, use) pairs."""
+    from ..cfg import cfg_of
+
+    n = 0
+    for mname in modules:
+        m = repo.mod(mname)
+        for q, fn in m.functions.items():
+            cands = []
+            for st in walk_no_nested(fn):
+                if isinstance(st, ast.Assign) and len(st.targets) == 1 and isinstance(st.targets[0], ast.Name):
+                    for x in ast.walk(st.value):
+                        v = None
+                        if isinstance(x, ast.Attribute) and x.attr in ("size", "nbytes", "shape") and isinstance(x.value, ast.Name):
+                            v = x.value.id
+                        elif isinstance(x, ast.Call) and call_name(x) == "len" and len(x.args) == 1 and isinstance(x.args[0], ast.Name):
+                            v = x.args[0].id
+                        if v and v != st.targets[0].id:
+                            cands.append((st, st.targets[0].id, v))
+            if not cands:
+                continue
+            c = cfg_of(fn)
+            rd = c.reaching_defs()
+            for st, L, V in cands:
+                sn = c.node_of(st)
+                if sn is None:
+                    continue
+                for u in c.nodes[3:]:
+                    if u.id == sn or u.stmt is None or not c.reaches(sn, u.id):
+                        continue
+                    tree = u.expr if u.expr is not None else u.stmt
+                    if isinstance(tree, (ast.For, ast.While, ast.If, ast.With, ast.Try, ast.FunctionDef)):
+                        continue
+                    names = {x.id for x in ast.walk(tree) if isinstance(x, ast.Name) and isinstance(x.ctx, ast.Load)}
+                    if L not in names or V not in names:
+                        continue
+                    if rd[u.id].get(L) != {sn}:
+                        continue
+                    n += 1
+                    # only a definition that transforms the array itself (`v = f(v)`) makes the extent stale; a loop
+                    # variable taking its next value is a different object with its own extent
+                    new_defs = (rd[u.id].get(V) or set()) - (rd[sn].get(V) or set())
+                    same = not any(isinstance(c.nodes[d].stmt, ast.Assign) and c.nodes[d].kind not in ("iter",) and
+                                   any(isinstance(x, ast.Name) and x.id == V for x in ast.walk(c.nodes[d].stmt.value)) for d in new_defs)
+                    if report:
+                        rep.check(same, rule, f"ethosu/vela/{mname}.py:{q}", f"`{L}` (extent of `{V}`, line of `{str(norm(st))[:60]}`) is used with the `{V}` it was measured on in `{str(norm(tree))[:60]}`",
+                                  f"`{V}` is re-assigned between the measurement and this use: the cached extent `{L}` describes a different array (element count vs byte count)")
+                    elif not same:
+                        print("STALE", mname, q, L, V, str(norm(tree))[:80])
     return n
